@@ -469,9 +469,9 @@ pub fn models(tier: Tier) -> Vec<C17> {
         C17::new("C17-arena-400-long-header-scratch", 400, &[1, 140], &[1], true, 2, false, 0),
     ];
     if !q {
-        v.push(C17::new("C17-arena-24", 24, &[0, 1, 7], &[1, 2, 3], true, 3, true, 0));
+        v.push(C17::new("C17-arena-40", 40, &[0, 1, 7, 20], &[1, 2, 3], true, 3, true, 0));
         v.push(C17::new("C17-arena-200-mixed", 200, &[0, 1, 7, 100], &[1, 2, 3], true, 4, true, 0));
-        v.push(C17::new("C17-arena-96-eight-slots-qos2", 96, &[0], &[2], false, 8, false, 10));
+        v.push(C17::new("C17-arena-96-six-slots-qos2", 96, &[0], &[2], false, 6, false, 8));
         v.push(C17::new("C17-arena-64-five-slots-two-sizes", 64, &[0, 7], &[1, 2], false, 5, false, 8));
         v.push(C17::new("C17-arena-600-long-headers-mixed", 600, &[0, 130, 200], &[1, 2, 3], true, 3, false, 0));
     }
